@@ -475,3 +475,81 @@ def c21_joinstride(R):
                     construct=f"pseudo_join: stride of the result over [{norm(L)[:50]}, ..] divides the offset of the {'first' if x == s else 'second'} operand's lower bound",
                 )
     R.need(n_results >= 6, f"pseudo_join: only {n_results} constructed results found on its paths")
+
+
+def _built(ret):
+    """the StridedInterval(...) constructor call inside a returned expression, through trailing .normalize()/.copy()"""
+    e = ret
+    while isinstance(e, ast.Call) and isinstance(e.func, ast.Attribute) and e.func.attr in ("normalize", "copy") and not e.args:
+        e = e.func.value
+    if isinstance(e, ast.Call) and (dotted(e.func) or "").split(".")[-1] == "StridedInterval":
+        return e
+    return None
+
+
+@rule(
+    "C21.arithstride",
+    props=("C21", "C24"),
+    floor=8,
+    family="FIN",
+    desc="add / sub of strided intervals, for all inputs: the constructed result starts at the sum of the lower bounds "
+    "(difference: own lower bound minus the other's *upper* bound), ends at the sum of the upper bounds (own upper minus "
+    "the other's lower), modulo 2**w, and its stride provably divides both operands' strides - every x+y (x-y) is then "
+    "on the result's lattice; decided over linear forms modulo 2**w and the divisibility sets of C21.joinstride",
+)
+def c21_arithstride(R):
+    tree = R.tree
+    m = tree.mod(SI)
+    want = {
+        "add": (lambda s, b: {f"{s}.lower_bound": 1, f"{b}.lower_bound": 1}, lambda s, b: {f"{s}.upper_bound": 1, f"{b}.upper_bound": 1}),
+        "sub": (lambda s, b: {f"{s}.lower_bound": 1, f"{b}.upper_bound": -1}, lambda s, b: {f"{s}.upper_bound": 1, f"{b}.lower_bound": -1}),
+    }
+    for name, (wl, wu) in want.items():
+        fn = tree.func_inlined(SI, f"StridedInterval.{name}", exclude=("_modular_sub", "_modular_add", "_wrapped_cardinality", "_wrapped_overflow_add", "_wrapped_overflow_sub"))
+        ps = positional_params(fn)
+        R.need(len(ps) == 2, f"StridedInterval.{name} no longer takes two operands")
+        s, b = ps
+
+        def canon(text, s=s, b=b):
+            for x in (s, b):
+                if text == f"{x}._lower_bound":
+                    return f"{x}.lower_bound"
+                if text == f"{x}._upper_bound":
+                    return f"{x}.upper_bound"
+            return text
+
+        n = 0
+        for _facts, ret, st in paths(fn):
+            c = _built(ret)
+            if c is None:
+                continue
+            E, L, U = _kw(c, "stride"), _kw(c, "lower_bound"), _kw(c, "upper_bound")
+            if E is None or L is None or U is None:
+                continue
+            n += 1
+            for what, expr, w in (("lower", L, wl(s, b)), ("upper", U, wu(s, b))):
+                try:
+                    lf = linear(expr, canon, {})
+                except _NotLinear:
+                    lf = None
+                R.check(
+                    lf == w,
+                    m,
+                    st,
+                    f"{name}: {what} bound of the result",
+                    f"StridedInterval.{name} builds its result with {what} bound `{norm(expr)[:120]}`; the {what} end of "
+                    f"{{x {'+' if name == 'add' else '-'} y}} is {' '.join(('+' if c_ > 0 else '-') + ' ' + t for t, c_ in w.items()).lstrip('+ ')} modulo 2**w",
+                    construct=f"{name}: {what} bound of the constructed result",
+                )
+            div = divides(E, canon, {})
+            for x in (s, b):
+                R.check(
+                    div == EVERYTHING or ("stride", x) in div,
+                    m,
+                    st,
+                    f"{name}: result stride divides {x}.stride",
+                    f"StridedInterval.{name} builds its result with stride `{norm(E)[:120]}`, which is not known to divide "
+                    f"{x}.stride: steps of {x} leave the result's lattice",
+                    construct=f"{name}: stride of the constructed result divides the {'first' if x == s else 'second'} operand's stride",
+                )
+        R.need(n >= 1, f"StridedInterval.{name}: no constructed result found")
